@@ -79,35 +79,125 @@ pub struct Prot {
 
 /// Draw a protected header: decoded from wire (styled bytes), built empty, or built non-empty.
 pub fn gen_prot(g: &mut Gen, ctx: &mut Ctx) -> Result<Prot, String> {
-    match g.weighted(&[4, 2, 4]) {
+    let content = match g.weighted(&[2, 8]) {
+        0 => None,
+        _ => Some(gen_header(g, &mut Faults::none(), 1)),
+    };
+    gen_prot_with(g, ctx, content)
+}
+
+/// Two protected headers with the *same content* (independently styled / positioned / built):
+/// body and signer headers that are equal as values but not as bytes.
+pub fn gen_prot_pair_same_content(g: &mut Gen, ctx: &mut Ctx) -> Result<(Prot, Prot), String> {
+    let content = gen_header(g, &mut Faults::none(), 1);
+    ctx.class("protected:pair-with-same-content");
+    Ok((gen_prot_with(g, ctx, Some(content.clone()))?, gen_prot_with(g, ctx, Some(content))?))
+}
+
+/// A protected header with the given content (None = the empty header): decoded from wire at a
+/// drawn position and in a drawn style, or built in memory.
+pub fn gen_prot_with(g: &mut Gen, ctx: &mut Ctx, content: Option<Item>) -> Result<Prot, String> {
+    let flavour = match &content {
+        None => g.weighted(&[4, 2, 0]),
+        Some(_) => g.weighted(&[4, 0, 4]),
+    };
+    match flavour {
         0 => {
             // decoded from wire: empty bstr, wrapped empty map, or wrapped header in any style
-            let slot = match g.weighted(&[2, 1, 6]) {
-                0 => Item::Bytes(vec![]),
-                1 => Wrapped::new(Item::Map(vec![])),
-                _ => Wrapped::new(gen_header(g, &mut Faults::none(), 1)),
+            let slot = match &content {
+                None => {
+                    if g.ratio(1, 3) {
+                        Wrapped::new(Item::Map(vec![]))
+                    } else {
+                        Item::Bytes(vec![])
+                    }
+                }
+                Some(c) => Wrapped::new(c.clone()),
             };
-            let top = carrier(Kind::Sign1, slot, Item::Map(vec![]));
+            // the position the header is decoded at: message body, or inside a counter-signature
+            // carried by the unprotected / protected header of a message (depth 1), or inside a
+            // counter-signature of a counter-signature (depth 2), a COSE_Sign signer, a nested recipient
+            let position = g.weighted(&[4, 2, 2, 1, 1, 1]);
+            let sig = |p: Item, u: Item| Item::Array(vec![p, u, Item::Bytes(vec![0x53])]);
+            let cs_hdr = |s: Item| Item::Map(vec![(Item::Int(7), s)]);
+            let top = match position {
+                0 => carrier(Kind::Sign1, slot, Item::Map(vec![])),
+                1 => carrier(Kind::Sign1, Item::Bytes(vec![]), cs_hdr(sig(slot, Item::Map(vec![])))),
+                2 => carrier(Kind::Sign1, Wrapped::new(cs_hdr(sig(slot, Item::Map(vec![])))), Item::Map(vec![])),
+                3 => carrier(Kind::Sign1, Item::Bytes(vec![]), cs_hdr(sig(Item::Bytes(vec![]), cs_hdr(Item::Array(vec![sig(Item::Bytes(vec![]), Item::Map(vec![])), sig(slot, Item::Map(vec![]))]))))),
+                4 => Item::Array(vec![Item::Bytes(vec![]), Item::Map(vec![]), Item::Null, Item::Array(vec![sig(Item::Bytes(vec![]), Item::Map(vec![])), sig(slot, Item::Map(vec![]))])]),
+                _ => Item::Array(vec![Item::Bytes(vec![]), Item::Map(vec![]), Item::Null, Item::Array(vec![Item::Array(vec![Item::Bytes(vec![]), Item::Map(vec![]), Item::Null, Item::Array(vec![Item::Array(vec![slot, Item::Map(vec![]), Item::Null])])])])]),
+            };
             let (bytes, enc) = styled(&top, g, StyleOpts::ALL);
-            let w = match &enc.as_array().unwrap()[0] {
-                Item::Wrapped(w) => w.content(),
-                _ => vec![],
+            // the recorded content bytes of the slot, by the known path to it
+            #[derive(Clone, Copy)]
+            enum Step {
+                Idx(usize),
+                /// value of the (single) map entry
+                Val,
+                /// inner item of a wrapped byte string
+                Inner,
+            }
+            fn walk<'a>(mut i: &'a Item, path: &[Step]) -> Option<&'a Item> {
+                for s in path {
+                    i = match (s, i) {
+                        (Step::Idx(n), Item::Array(a)) => a.get(*n)?,
+                        (Step::Val, Item::Map(m)) => &m.first()?.1,
+                        (Step::Inner, Item::Wrapped(w)) => &w.inner,
+                        _ => return None,
+                    };
+                }
+                Some(i)
+            }
+            use Step::*;
+            let path: &[Step] = match position {
+                0 => &[Idx(0)],
+                1 => &[Idx(1), Val, Idx(0)],
+                2 => &[Idx(0), Inner, Val, Idx(0)],
+                3 => &[Idx(1), Val, Idx(1), Val, Idx(1), Idx(0)],
+                4 => &[Idx(3), Idx(1), Idx(0)],
+                _ => &[Idx(3), Idx(0), Idx(3), Idx(0), Idx(0)],
             };
-            let v = CoseSign1::from_slice(&bytes).map_err(|e| format!("generated valid COSE_Sign1 rejected: {:?} ({})", e, crate::cbor::hex_trunc(&bytes, 200)))?;
-            if v.protected.original_data.as_deref() != Some(&w[..]) {
-                return Err(format!("decoded protected header does not retain the wire bytes {}", crate::cbor::hex_trunc(&w, 80)));
+            let w = match walk(&enc, path) {
+                Some(Item::Wrapped(w)) => w.content(),
+                Some(Item::Bytes(b)) => b.clone(),
+                _ => return Err("harness: protected slot not found at its path".into()),
+            };
+            let value = match position {
+                0 => CoseSign1::from_slice(&bytes).map(|v| v.protected),
+                1 => CoseSign1::from_slice(&bytes).map(|v| v.unprotected.counter_signatures[0].protected.clone()),
+                2 => CoseSign1::from_slice(&bytes).map(|v| v.protected.header.counter_signatures[0].protected.clone()),
+                3 => CoseSign1::from_slice(&bytes).map(|v| v.unprotected.counter_signatures[0].unprotected.counter_signatures[1].protected.clone()),
+                4 => coset::CoseSign::from_slice(&bytes).map(|v| v.signatures[1].protected.clone()),
+                _ => coset::CoseEncrypt::from_slice(&bytes).map(|v| v.recipients[0].recipients[0].protected.clone()),
+            }
+            .map_err(|e| format!("generated valid message rejected: {:?} ({})", e, crate::cbor::hex_trunc(&bytes, 200)))?;
+            if value.original_data.as_deref() != Some(&w[..]) {
+                return Err(format!("protected header decoded at position {} does not retain the wire bytes {} (has {:?})", position, crate::cbor::hex_trunc(&w, 80), value.original_data.as_ref().map(|b| crate::cbor::hex_trunc(b, 80))));
             }
             ctx.class("protected:from-wire");
-            Ok(Prot { value: v.protected, p: w, built: None, flavour: "wire" })
+            ctx.classf(format!("protected:from-wire:position-{}", ["body", "countersig-in-unprotected", "countersig-in-protected", "countersig-of-countersig", "second-signer", "recipient-of-recipient"][position]));
+            Ok(Prot { value, p: w, built: None, flavour: "wire" })
         }
         1 => {
             ctx.class("protected:built-empty");
             Ok(Prot { value: ProtectedHeader { original_data: None, header: Header::default() }, p: vec![], built: Some(Header::default()), flavour: "built-empty" })
         }
         _ => {
-            let item = gen_header(g, &mut Faults::none(), 1);
+            let item = content.unwrap_or_else(|| Item::Map(vec![]));
             let mut m = m_header(&item, &mut MCtx::default()).map_err(|e| format!("valid generator produced a rejected header: {:?}", e))?;
             strip_wire_header(&mut m);
+            // a struct literal can hold what no decoder or builder yields: both IV and Partial IV
+            // (still an encodable header whose map has both labels)
+            if g.ratio(1, 8) {
+                if m.iv.is_empty() {
+                    m.iv = g.nonempty_bytes();
+                }
+                if m.partial_iv.is_empty() {
+                    m.partial_iv = g.nonempty_bytes();
+                }
+                ctx.class("protected:built-with-iv-and-partial-iv");
+            }
             let h = match model_to_header(&m) {
                 Some(h) => h,
                 None => return Err("model header has no in-memory counterpart".into()),
